@@ -341,7 +341,11 @@ func (c *concretizer) value(key, class string) string {
 				"[{cycle:30,rsq:0,code:404};{cycle:20,rsq:0,code:404}]")
 		case "brokenlist":
 			return c.pick("[{cycle:30,rsq:0,code:404}", "[{", "[{}]", "[{cycle:30,rsq:0,code:404},]", "[{,}]", "[]", "{}",
-				"[{cycle:30,,code:404}]", "[{cycle}]", "[{cycle:30,rsq:0,code:404},{}]")
+				"[{cycle:30,,code:404}]", "[{cycle}]", "[{cycle:30,rsq:0,code:404},{}]",
+				// entries that lack one of the keys (the others well-formed): whatever default the parser leaves in place
+				// must be validated like a given value
+				"[{rsq:0,code:404}]", "[{rsq:0,code:404}]", "[{cycle:30,code:404}]", "[{cycle:30,rsq:0}]", "[{code:503}]",
+				"[{cycle:30,rsq:0,code:404},{rsq:1,code:503}]", "[{rsq:0,code:404,rep:V300}]", "[{rsq:0,code:410,rep:*}]")
 		}
 	case "traffic":
 		// NB: no 's' (slow, 2 s) and no 'h' (hang, 10 s) states: those waits are by design (covered by C14)
